@@ -1,0 +1,3 @@
+// Package verifhook provides named instrumentation points for external runtime
+// monitors. Without the "verif" build tag every function is an inlinable no-op.
+package verifhook
